@@ -148,7 +148,8 @@ def minimise_session(seed, idx, upto, sig, env, sdir, budget=24):
             for f in futs:
                 r = f.result()
                 k, s, _ = classify(r)
-                out.append(k == "violation" and s == sig)
+                out.append(k == "violation" and
+                           s.split("@")[-1] == sig.split("@")[-1])
         used[0] += len(cands)
         return out
 
@@ -347,6 +348,7 @@ def run_check(tier, seed):
         rc = 0
         replays = []
         seen = set()
+        unconfirmed = []
         OUT.joinpath("replays").mkdir(parents=True, exist_ok=True)
         for sig, a, r, detail, lc in violations:
             if sig in seen or len(replays) >= int(
@@ -375,8 +377,13 @@ def run_check(tier, seed):
                 replays.append(str(path))
                 rc = 1
             else:
-                say(f"HARNESS-ERROR property=C05 sig={sig}: replay not "
-                    "confirmed in a fresh child")
+                unconfirmed.append(sig)
+        if unconfirmed:
+            say(f"  note: {len(unconfirmed)} further sanitizer report(s) did "
+                f"not replay from their minimised call list: {unconfirmed}")
+            if not replays:
+                say("HARNESS-ERROR property=C05: sanitizer reports seen but "
+                    "none replays in a fresh child")
                 return 2
         for v in alloc_viol[:3]:
             path = OUT / "replays" / f"C05-{seed}-w{v[1]}-{v[0]}.json"
@@ -461,8 +468,7 @@ def replay_quiet(path, sig, env, sdir):
                 "progress": str(sdir / f"confirm-w{js['workload']}.log")}
     r = run_child(args, env, 600)
     kind, s, _ = classify(r)
-    if js["part"] == "alloc":
-        # stack exhaustion shows as SEGV, stack-overflow or a wild write
-        # depending on where the guard page sits: same kernel frame is enough
-        return kind == "violation" and s.split("@")[-1] == sig.split("@")[-1]
-    return kind == "violation" and s == sig
+    # the sanitizer's wording for one defect varies with heap layout (stack
+    # exhaustion: SEGV / stack-overflow / wild write; a stale static buffer:
+    # heap-buffer-overflow / use-after-free): the same kernel frame is enough
+    return kind == "violation" and s.split("@")[-1] == sig.split("@")[-1]
